@@ -120,6 +120,22 @@ def split_stack(data):
     return parts
 
 
+def _symlinked_path(ctx, data, parts):
+    import shutil
+    real = os.path.join(ctx.scratch, "c18_real")
+    other = os.path.join(ctx.scratch, "c18_other")
+    shutil.rmtree(real, ignore_errors=True)
+    shutil.rmtree(other, ignore_errors=True)
+    os.makedirs(real)
+    os.makedirs(os.path.join(other, "sub"))
+    with open(os.path.join(other, "stack.pkl"), "wb") as fh:      # what the spelled path really names
+        fh.write(data)
+    with open(os.path.join(real, "stack.pkl"), "wb") as fh:       # the decoy a lexical collapse would open
+        fh.write(parts[0] + b"N.")
+    os.symlink(os.path.join(other, "sub"), os.path.join(real, "shards"))
+    return os.path.join(real, "shards", "..", "stack.pkl")
+
+
 def check_inject(ctx, f, cli, parts, k, run_last, replace, source):
     agg = ctx.agg
     data = b"".join(parts)
@@ -142,6 +158,10 @@ def check_inject(ctx, f, cli, parts, k, run_last, replace, source):
         with open(path, "wb") as fh:
             fh.write(data)
         argv.append(path)
+    elif source == "file-symlink-dotdot":
+        # a path spelled <dir>/<symlink>/../stack.pkl: the kernel resolves the symlink before the "..", collapsing
+        # the text first lands on another file of the same name
+        argv.append(_symlinked_path(ctx, data, parts))
     else:
         stdin_obj = FakeStdin(data, seekable=(source == "stdin-seekable"))
     try:
@@ -202,6 +222,8 @@ def check_decompile(ctx, f, cli, parts, source):
         with open(path, "wb") as fh:
             fh.write(data)
         argv.append(path)
+    elif source == "file-symlink-dotdot":
+        argv.append(_symlinked_path(ctx, data, parts))
     else:
         stdin_obj = FakeStdin(data, seekable=(source == "stdin-seekable"))
     try:
@@ -271,7 +293,7 @@ def run_shard(ctx):
     import fickling  # noqa: F401
     import fickling.fickle as f
     import fickling.cli as cli
-    sources = ["file", "stdin-seekable", "stdin-nonseekable"]
+    sources = ["file", "stdin-seekable", "stdin-nonseekable", "file-symlink-dotdot"]
     i = 0
     for parts in stacks(ctx):
         ok = True
@@ -289,7 +311,7 @@ def run_shard(ctx):
                     i += 1
                     if i % ctx.nshards != ctx.shard:
                         continue
-                    src = sources[i // ctx.nshards % 3] if ctx.tier == "quick" else None
+                    src = sources[i // ctx.nshards % len(sources)] if ctx.tier == "quick" else None
                     for s in ([src] if src else sources):
                         check_inject(ctx, f, cli, parts, k, run_last, replace, s)
         for s in sources:
